@@ -32,7 +32,7 @@ ASSUMPTIONS = [
 REQUIRED = ["histories_checked", "events_checked", "deep_traversals", "low_limit_traversals",
             "raising_callbacks_checked", "list_mutating_callbacks", "history_traversals",
             "inplace_reparentings", "history_copies", "history_rerootings", "handle_variants",
-            "tap__traverse_dfs"]
+            "falsy_callable_callbacks", "forest_traversals", "tap__traverse_dfs"]
 FLOOR = {"quick": 1500, "thorough": 20000}
 SHARDS = {"quick": 8, "thorough": 16}
 TECHNIQUE = ("runtime monitoring: recorded enter/leave callback histories with unique tokens "
@@ -110,7 +110,18 @@ def check_history(pid, start, ev, ret, has_enter, has_leave):
     return None
 
 
-def _run_traverse(tree, api, mode, start, *, raise_at=None, hostile=False):
+class _FalsyCallable:
+    def __init__(self, fn):
+        self.fn = fn
+
+    def __call__(self, *a):
+        return self.fn(*a)
+
+    def __len__(self):
+        return 0
+
+
+def _run_traverse(tree, api, mode, start, *, raise_at=None, hostile=False, falsy=False):
     """Run one traversal with recording callbacks; returns (events, ret, node_errors)."""
     from swcgeom.core import Tree
     from swcgeom.core import swc_utils as su
@@ -155,6 +166,10 @@ def _run_traverse(tree, api, mode, start, *, raise_at=None, hostile=False):
         kw["enter"] = enter
     if "l" in mode:
         kw["leave"] = leave
+    if falsy:
+        # callables that are *falsy* objects (a recorder that is still empty): a callback is
+        # "given" when it is not None, whatever its truth value
+        kw = {k: _FalsyCallable(f) for k, f in kw.items()}
     try:
         if api == "su":
             ret = su.traverse((tree.id(), tree.pid()), root=start, **kw)
@@ -207,6 +222,16 @@ def execute(ctx, case) -> None:
 
 def _exec_small(ctx, case):
     spec = G.spec_from_recipe(case["tree"])
+    if case.get("forest"):
+        # more than one root (what reading a multi-root file without repair gives): a traversal
+        # from a node never leaves that node's component
+        pid = spec["pid"].copy()
+        n_ = len(pid)
+        rng_ = np.random.default_rng(case["forest"])
+        for v in rng_.integers(1, n_, int(rng_.integers(1, 4))):
+            pid[int(v)] = -1
+        spec = dict(spec, pid=pid)
+        ctx.count("forest_traversals")
     tree = G.build(spec)
     pid = spec["pid"]
     api, mode, start = case["api"], case["mode"], case["start"]
@@ -214,8 +239,11 @@ def _exec_small(ctx, case):
     try:
         if case.get("hostile"):
             ctx.count("list_mutating_callbacks")
+        if case.get("falsy"):
+            ctx.count("falsy_callable_callbacks")
         (ev, ret, nerr), steps = _budget().run(2000 * (n + 2) ** 2, _run_traverse, tree, api,
-                                               mode, start, hostile=bool(case.get("hostile")))
+                                               mode, start, hostile=bool(case.get("hostile")),
+                                               falsy=bool(case.get("falsy")))
     except probes.StepBudgetExceeded as e:
         ctx.violation("diverged", f"traversal did not finish within the step budget: {e}", case)
         return
@@ -432,6 +460,10 @@ def _workload(ctx):
             case = {"kind": "small", "tree": rc, "api": api, "mode": mode, "start": int(start)}
             if "l" in mode and rng.random() < 0.5:
                 case["hostile"] = True
+            if rng.random() < 0.15:
+                case["falsy"] = True
+            if n >= 3 and rng.random() < 0.15:
+                case["forest"] = int(rng.integers(1, 2**31 - 1))
             ctx.case(case, nontrivial=len(ch[start]) > 0, klass=f"small/{rc['shape']}")
             execute(ctx, case)
         # all three entry points and all three modes must agree on one start per tree
